@@ -25,14 +25,17 @@
    not exceed anything; the visit contracts show that m is a number under the stated bounds.
    test_abs_term() returns "0 or the absolute term": flagged is `value != 0`.
 
-   FINDINGS kept as failing obligations, each with an exclusion predicate (see unit report / native_demo.cpp):
-     GV_EXCL_ANGLE_BS_ARM_LONGER   visit(Angle*) uses the arm to `to` (= bs) only; predicate: hor(F,fs) <= hor(F,bs)
-     GV_EXCL_NONZERO_TERM          `value != 0` hides an outlier whose stored term b(indm) is exactly 0;
-                                   predicate: not (m > tol-abs and b(indm) == 0)
-     GV_EXCL_EMPTY_ID_PRESENT      test_abs_term evaluates PD[m->to()] for coordinate observations whose target id is ""
-                                   (std::map inserts a point); predicate: the map already holds the empty id
-     GV_EXCL_UNIT_WEIGHTS          remove_huge_abs_terms() tests b AFTER project_equations() has homogenised it;
-                                   predicate: homogenisation is the identity (uncorrelated, stdDev == m0_apr)          */
+   KNOWN FINDINGS kept as failing obligations, each with an exclusion predicate (native_demo.cpp):
+     GV_EXCL_UNIT_WEIGHTS          remove_huge_abs_terms() (and the listing of outlying terms) call test_abs_term AFTER
+                                   project_equations() has overwritten b with the homogenised right-hand side;
+                                   predicate: homogenisation is the identity (uncorrelated, stdDev == m0_apr)
+     GV_EXCL_NONZERO_TERM          "0 or the term": `value != 0` hides an outlier whose stored term b(indm) is exactly 0;
+                                   predicate: not (m > tol-abs and b(indm) == 0).  Reachable only because of the first
+                                   finding (a homogenised term can vanish) or with tol-abs < 0: with the raw term and
+                                   tol-abs >= 0, m > tol-abs implies b != 0.
+   REPAIRED in /repo after this unit reported them: test_abs_term used PD[m->to()] for coordinate observations (inserted a
+   point with the empty id; 29733db) and tested an angle on its bs arm only (7cdeba6: the FARTHER of to() and fs() is now
+   handed to the visitor by test_abs_term; visit(Angle*) legitimately uses the d0 it is given).                    */
 
 //@ prelude
 #include "abs_gen.h" /* generated from the repository by abs_pre.py: M_PI, R2G (float.h), enum Update (network.h) */
@@ -61,7 +64,6 @@ struct Observation {
 #define NPTS 3
 struct PointData {
   struct LocalPoint pts[NPTS];
-  struct LocalPoint empty_pt; /* the entry of the empty id, if any */
 };
 struct ObsVector { /* std::vector<Observation*> */
   struct Observation **data;
@@ -91,7 +93,7 @@ int gv_exc;
 /* P = prophecy values chosen by the harness (read only); G = ghost record written by stubs and ghost statements */
 struct abs_prophecy {
   double sqrt_ret[2]; /* [0] horizontal distance computed by setFromTo, [1] slope distance computed by a visit */
-  double dfs;         /* horizontal distance stand point -> foresight of an angle (no code computes it) */
+  double hyp_ret[2];  /* std::hypot #0: stand point -> to(), #1: stand point -> fs() (angle, test_abs_term) */
   double tat_ret_k0;  /* what test_abs_term returns for the ghost index gv_k0 (loop checks) */
   bool pe_flag;       /* vybocujici_abscl_ as left by project_equations() (remove_huge_abs_terms check) */
   bool act0;          /* active() of observation gv_k0 before remove_huge_abs_terms */
@@ -109,6 +111,8 @@ struct abs_record {
   int tat_calls;   /* calls of test_abs_term (loop checks) */
   bool tat_any;    /* some call returned non-zero */
   int pe_calls;
+  int nhyp;                 /* calls of std::hypot, with the four coordinates each difference was formed from */
+  double hyp_a1[2], hyp_b1[2], hyp_a2[2], hyp_b2[2];
   /* the last visit(T*): which overload, on which observation, with which visitor state */
   int vis_n, vis_type, vis_indm;
   const struct Observation *vis_obs;
@@ -119,29 +123,17 @@ struct abs_record {
 int gv_k0; /* ghost index 1..pocmer_ (forall-introduction) */
 struct Observation *gv_m; /* the observation under test (test_abs_term check) */
 
-/* IEEE operations as TAGGED operations (idiom of units/vyrovnani_tail): gv_fmul(a,b) performs the real IEEE
-   multiplication AND states that its result is the value of the uninterpreted function FMUL at (a,b).  "IEEE
-   multiplication is a function of its operands" is a fact, so the statement excludes no execution; it lets a contract
-   name the product as the TERM FMUL(a,b): the solver then compares OPERANDS instead of multiplier circuits.  Used for
-   visit(Angle*) only, whose value clause FAILS on the tree as found: an SMT back end proves the other visits' value
-   identities at once but does not find this counterexample in 200 s, a SAT back end finds it but cannot prove the
-   identities; on terms SAT does both in seconds.  The tag is bit-exact (+0 / -0 are different operands). */
-double __CPROVER_uninterpreted_fdiv(double, double);
-double __CPROVER_uninterpreted_fmul(double, double);
-#define FDIV(a, b) __CPROVER_uninterpreted_fdiv((a), (b))
-#define FMUL(a, b) __CPROVER_uninterpreted_fmul((a), (b))
-#define SAME_BITS(a, b) (((a) == (b) && __CPROVER_signd(a) == __CPROVER_signd(b)) || ((a) != (a) && (b) != (b)))
-static double gv_fdiv(double a, double b)
+/* std::hypot(a1 - b1, a2 - b2) as a symbol.  The lowering rule hands the stub the four coordinates instead of the two
+   differences (a tagged operation: the contract then compares OPERANDS bit for bit instead of two subtracter circuits).
+   Assumed libm contract: the result is a number >= 0 (finite coordinates). */
+double abs_hypot_d(double a1, double b1, double a2, double b2)
 {
-  __CPROVER_assert(b != 0, "floating-point division: the divisor is not zero");
-  double r = a / b;
-  __CPROVER_assume(SAME_BITS(r, FDIV(a, b)));
-  return r;
-}
-static double gv_fmul(double a, double b)
-{
-  double r = a * b;
-  __CPROVER_assume(SAME_BITS(r, FMUL(a, b)));
+  __CPROVER_assert(G.nhyp == 0 || G.nhyp == 1, "at most two hypot calls per tested observation");
+  const int k = G.nhyp == 0 ? 0 : 1;
+  double r = P.hyp_ret[k];
+  __CPROVER_assume(r >= 0);
+  G.hyp_a1[k] = a1; G.hyp_b1[k] = b1; G.hyp_a2[k] = a2; G.hyp_b2[k] = b2;
+  G.nhyp++;
   return r;
 }
 
@@ -157,16 +149,19 @@ double abs_sqrt(double x)
   return r;
 }
 
-/* std::map<PointID,LocalPoint>::operator[] */
+/* std::map<PointID,LocalPoint>::operator[] : inserts a default point when the id is missing */
 struct LocalPoint *PointData_at(struct PointData *pd, PointID id)
 {
-#ifdef GV_EXCL_EMPTY_ID_PRESENT
-  if (id == NOID) return &pd->empty_pt;
-#endif
   __CPROVER_assert(0 <= id && id < NPTS, "PD[id]: the id is present in the point map (std::map::operator[] INSERTS a default point otherwise)");
-  if (!(0 <= id && id < NPTS)) return &pd->empty_pt;
-  return &pd->pts[id];
+  return &pd->pts[0 <= id && id < NPTS ? id : 0];
 }
+/* std::map::find: the iterator is modelled as a pointer to the mapped point, end() as NULL; never modifies the map */
+const struct LocalPoint *PointData_find(const struct PointData *pd, PointID id)
+{
+  return (0 <= id && id < NPTS) ? &pd->pts[id] : NULL;
+}
+/* dynamic_cast<const Angle*>(m) */
+const struct Observation *gv_dyn_Angle(const struct Observation *m);
 
 /* std::vector<Observation*> */
 struct Observation **gv_vec_at(struct ObsVector *v, int i)
@@ -202,6 +197,7 @@ static inline void TAV_ctor(struct TAV *self, const struct Vec *bVector, double 
   self->d0 = 0;
 }
 
+const struct Observation *gv_dyn_Angle(const struct Observation *m) { return m->gv_type == T_Angle ? m : NULL; }
 /* prototypes of extracted functions (definition order = unit.json order) */
 double Observation_reduction(const struct Observation *self);
 Float Vec_at_const(const struct Vec *self, Index n);
@@ -297,17 +293,10 @@ void gvs_project_equations(struct LocalNetwork *self)
 #else
 #define EXCL_ZERO(b, m, tol) 1
 #endif
-#ifdef GV_EXCL_ANGLE_BS_ARM_LONGER
-#define EXCL_ANGLE(hor) (P.dfs <= (hor))
-#else
-#define EXCL_ANGLE(hor) 1
-#endif
 /* the misclosure of an observation of type T; L = LEN_MM (observed - computed) or LEN_MM_R (computed - observed) */
 #define M_Distance(L, o, F, T, bi, hor, slo) L(VALUE(o), hor)
 #define M_Direction(L, o, F, T, bi, hor, slo) ANG_MM(bi, hor)
-#define M_Angle(L, o, F, T, bi, hor, slo) ANG_MM(bi, GV_MAXD(hor, P.dfs)) /* |b| max(arms) / (2000/pi) */
-/* ... the same with the product and the quotient named as terms (see gv_fmul): |(b (x) max(arms)) (/) (2000/pi)| */
-#define IS_M_Angle(m, bi, hor) MV_SAMEVAL(m, __CPROVER_fabs(FDIV(FMUL(bi, GV_MAXD(hor, P.dfs)), K_CC2MM)))
+#define M_Angle(L, o, F, T, bi, hor, slo) ANG_MM(bi, hor) /* hor: distance to the target the visitor was given (test_abs_term gives the farther arm) */
 #define M_H_Diff(L, o, F, T, bi, hor, slo) L(VALUE(o), (T)->z_ - (F)->z_)
 #define M_S_Distance(L, o, F, T, bi, hor, slo) L(VALUE(o), slo)
 #define M_Z_Angle(L, o, F, T, bi, hor, slo) ANG_MM(bi, slo)
@@ -356,7 +345,7 @@ void gvs_project_equations(struct LocalNetwork *self)
 #define VIS_IS_M_(Ty) IS_M(G.chk_arg, Ty, obs, self->stan, self->cil, BI(self), self->d0, P.sqrt_ret[1])
 #define VIS_IS_M_Distance VIS_IS_M_(Distance)
 #define VIS_IS_M_Direction VIS_IS_M_(Direction)
-#define VIS_IS_M_Angle IS_M_Angle(G.chk_arg, BI(self), self->d0)
+#define VIS_IS_M_Angle VIS_IS_M_(Angle)
 #define VIS_IS_M_H_Diff VIS_IS_M_(H_Diff)
 #define VIS_IS_M_S_Distance VIS_IS_M_(S_Distance)
 #define VIS_IS_M_Z_Angle VIS_IS_M_(Z_Angle)
@@ -386,12 +375,17 @@ void gvs_project_equations(struct LocalNetwork *self)
   (0 <= (o)->gv_type && (o)->gv_type < T_COUNT && 0 <= (o)->from_ && (o)->from_ < NPTS &&                        \
    (ONE_POINT((o)->gv_type) ? (o)->to_ == NOID : (0 <= (o)->to_ && (o)->to_ < NPTS && (o)->to_ != (o)->from_)) && \
    (USES_D0((o)->gv_type) ==> (PT(n, (o)->from_)->bxy_ && PT(n, (o)->to_)->bxy_)) &&                             \
-   COORDS_OK(PT(n, (o)->from_)) && (ONE_POINT((o)->gv_type) ? COORDS_OK(&(n)->PD.empty_pt) : COORDS_OK(PT(n, (o)->to_))) && OBS_FIN(o))
+   COORDS_OK(PT(n, (o)->from_)) && (ONE_POINT((o)->gv_type) || COORDS_OK(PT(n, (o)->to_))) &&                                                    \
+   ((o)->gv_type == T_Angle ==> (0 <= (o)->fs_ && (o)->fs_ < NPTS && (o)->fs_ != (o)->from_ && PT(n, (o)->fs_)->bxy_ &&  \
+                                 COORDS_OK(PT(n, (o)->fs_)))) && OBS_FIN(o))
 /* test_abs_term(indm) */
 #define TA_M gv_m /* == revised_obs_[indm-1] (required); named through a ghost pointer: cbmc 6.11 crashes on data[i]->field in a requires clause */
 #define TA_F PT(self, TA_M->from_)
 #define TA_T PT(self, TA_M->to_) /* used by the two-point types only */
 #define TA_B (self->b.mem.rep[indm - 1])
+#define TA_S PT(self, TA_M->fs_) /* angle: foresight */
+/* hypot call #i measured the arm a -> c: differences c - a of x and of y, operands compared bit for bit */
+#define HYP_OF(i, a, c) (MV_SAMEVAL(G.hyp_a1[i], (c)->x_) && MV_SAMEVAL(G.hyp_b1[i], (a)->x_) && MV_SAMEVAL(G.hyp_a2[i], (c)->y_) && MV_SAMEVAL(G.hyp_b2[i], (a)->y_))
 /* remove_huge_abs_terms */
 #define RH_SHAPE(n)                                                                                         \
   (__CPROVER_rw_ok((n), sizeof(struct LocalNetwork)) && 0 <= (n)->pocmer_ && (n)->pocmer_ <= NMAX &&             \
@@ -407,7 +401,7 @@ void gvs_project_equations(struct LocalNetwork *self)
 //@ contract Vec_at_const
 MV_CONTRACT_Vec_at_const
 //@ entry Vec_at_const
-/* where the real body is inlined (check visit_Angle) the precondition of the contract is asserted here */
+/* where the real body is inlined the precondition of the contract is asserted here */
 __CPROVER_assert(1 <= n && n <= self->mem.sz, "Vec::operator()(n): 1 <= n <= dim (precondition of MV_CONTRACT_Vec_at_const)");
 //@ end
 
@@ -484,7 +478,7 @@ VIS_POST(Direction)
 GV_CANARY("TAV_visit_Direction entry");
 VIS_REC_STMT(Direction);
 //@ contract TAV_visit_Angle
-__CPROVER_requires(VIS_SHAPE2(self, obs) && D0_CUR(self) && 0 <= P.dfs && P.dfs <= DMAX && EXCL_ANGLE(self->d0))
+__CPROVER_requires(VIS_SHAPE2(self, obs) && D0_CUR(self))
 __CPROVER_assigns(self->val, G_SQRT, G_CHK, G_VIS)
 VIS_POST(Angle)
 //@ entry TAV_visit_Angle
@@ -569,17 +563,27 @@ VIS_REC_STMT(Azimuth);
 __CPROVER_requires(NET_SHAPE(self) && 1 <= indm && indm <= self->pocmer_)
 __CPROVER_requires(OBS_K(self, indm) == TA_M && __CPROVER_r_ok(TA_M, sizeof(struct Observation)) && !SAME(TA_M, self) && REVISED(self, TA_M))
 __CPROVER_requires(FIN(TA_B, BMAX) && G.b_raw && G.nsqrt == 0 && G.chk_n == 0 && G.vis_n == 0)
-__CPROVER_requires(0 <= P.dfs && P.dfs <= DMAX && EXCL_ANGLE(P.sqrt_ret[0]))
+__CPROVER_requires(G.nhyp == 0)
 __CPROVER_assigns(G) /* nothing of the network */
 /* exactly one visit: the overload of the observation's dynamic type, applied to observation indm ... */
 __CPROVER_ensures(G.vis_n == 1 && G.chk_n == 1 && G.vis_obs == TA_M && G.vis_type == TA_M->gv_type)
 /* ... by a visitor whose stand point / target are from() / to() of THAT observation, whose index is indm, whose vector is
    b and whose tolerance is tol-abs: with the contract of that visit, G.chk_arg IS the positional misclosure m_T of
    observation indm */
-__CPROVER_ensures(G.vis_stan == TA_F && G.vis_cil == (ONE_POINT(TA_M->gv_type) ? &self->PD.empty_pt : TA_T))
+/* stand point = from().  Target: the stand point itself for an observation without target (observed coordinate), the
+   FARTHER of to() and fs() for an angle ("the greater of two deviations corresponding to left and right distances",
+   doc/gama-local-adj.texi; either one when the arms are equally long), to() for every other type */
+__CPROVER_ensures(G.vis_stan == TA_F)
+__CPROVER_ensures(ONE_POINT(TA_M->gv_type) ==> G.vis_cil == TA_F)
+__CPROVER_ensures((!ONE_POINT(TA_M->gv_type) && TA_M->gv_type != T_Angle) ==> G.vis_cil == TA_T)
+__CPROVER_ensures(TA_M->gv_type == T_Angle ==>
+                  (G.nhyp == 2 && HYP_OF(0, TA_F, TA_T) && HYP_OF(1, TA_F, TA_S) && /* the two arms are measured: hypot of from->to, from->fs */
+                   (P.hyp_ret[1] > P.hyp_ret[0] ==> G.vis_cil == TA_S) && (P.hyp_ret[1] < P.hyp_ret[0] ==> G.vis_cil == TA_T) &&
+                   (G.vis_cil == TA_S || G.vis_cil == TA_T)))
+/* the point map is not modified (no insertion): nothing of the network is in the assigns clause */
 __CPROVER_ensures(G.vis_indm == indm && G.vis_b == &self->b && MV_SAMEVAL(G.vis_tol, self->tol_abs_))
 /* ... and whose d0 is the horizontal distance of exactly this pair (fresh visitor, setFromTo with both xy) */
-__CPROVER_ensures(USES_D0(TA_M->gv_type) ==> (G.d0_from == TA_F && G.d0_to == TA_T))
+__CPROVER_ensures(USES_D0(TA_M->gv_type) ==> (G.d0_from == TA_F && G.d0_to == G.vis_cil))
 /* the verdict: flagged (result != 0) exactly when m_T > tol-abs; the flagged value is b(indm) */
 __CPROVER_ensures(EXCL_ZERO(TA_B, G.chk_arg, self->tol_abs_) ==> ((__CPROVER_return_value != 0) == (G.chk_arg > self->tol_abs_)))
 __CPROVER_ensures(G.chk_arg > self->tol_abs_ ==> MV_SAMEVAL(__CPROVER_return_value, TA_B))
@@ -686,7 +690,7 @@ static void mk_vis(void)
   gv_v.d0 = 5; gv_v.tol_abs_ = 1000; gv_v.indm = 1; gv_v.val = 7;
   __CPROVER_assume(gv_bv.mem.sz == 1);
   gv_bv.mem.rep[0] = -2500.0;
-  P.sqrt_ret[0] = 5; P.sqrt_ret[1] = 13; P.dfs = 4;
+  P.sqrt_ret[0] = 5; P.sqrt_ret[1] = 13;
   G.chk_n = 0; G.vis_n = 0; G.nsqrt = ABS_SAMPLE_NSQRT; G.d0_from = &gv_F; G.d0_to = &gv_T;
 #endif
 }
